@@ -2,15 +2,17 @@
 From Cog Require Export Model.Passes.
 Local Open Scope list_scope.
 
-(* the references the default visitor reaches with only OnRef set *)
+(* the references FilterSchemas follows: plain and constant references in array values, map
+   index and value types, struct fields, union and intersection branches *)
 Fixpoint visited_refs (t : ty) : list (string * string) :=
   match t with
   | TArray _ v => visited_refs v
-  | TMap _ _ v => visited_refs v
+  | TMap _ i v => visited_refs i ++ visited_refs v
   | TStruct _ _ fs => flat_map (fun f => visited_refs (f_type f)) fs
   | TDisj _ d => flat_map visited_refs (d_branches d)
   | TInter _ bs => flat_map visited_refs bs
   | TRef _ p n => [(p, n)]
+  | TConstRef _ p n _ => [(p, n)]
   | _ => []
   end.
 
